@@ -78,7 +78,7 @@ def gen(tier, seed):
         for rounds in (8, 12, 20):
             for _ in range(nh):
                 kl = rng.choice(klens)
-                yield 'sc %s %d %s %s %s' % (v, rounds, rng.data(kl), rng.data(nl), ' '.join(history(rng, v, rng.rng(6, 40))))
+                yield 'sc %s %d %s %s %s' % (v, rounds, rng.data(kl), rng.data(nl) if rng.below(4) else rng.word_pattern(nl), ' '.join(history(rng, v, rng.rng(6, 40))))
             # partition equivalence + involution: the same message whole, bytewise-ish and in random pieces; then decrypt
             for _ in range(20 if thorough else 3):
                 kl = rng.choice(klens); key, nonce = rng.data(kl), rng.data(nl)
